@@ -70,7 +70,8 @@ ASSUMPTIONS = [
 PROBES = ['context_switch', 'cancel_fired', 'cancel_reissued', 'recursion_squeeze_fired', 'pickle_transport',
           'fork_worker', 'spawn_worker', 'debug_logging', 'lazy_iterator_interleaved', 'inplace_on_derived',
           'subprocess_hashseed_pair', 'multi_client', 'single_client', 'transform_output_in_world',
-          'handbuilt_in_world', 'random_key_constant_stream']
+          'handbuilt_in_world', 'random_key_constant_stream', 'reference_and_run_under_different_log_levels',
+          'duplicate_triples_in_world']
 
 ALL_FILES = ['layout.py', 'graph.py', 'transform.py', 'codec.py', 'model.py', '_parse.py', '_lexer.py', '_format.py',
              'tree.py', 'surface.py', 'constant.py', 'epigraph.py', 'exceptions.py', '__init__.py']
@@ -113,7 +114,7 @@ def plan_world(rng, idx):
                                    p_inverted_attr=r.pick([0.0, 0.1, 0.3]),
                                    var_like_constants=r.pick([0.0, 0.2, 0.4]))
         c = gcontent.gen_content(r, spec, ccfg)
-        kind = r.weighted([('decoded', 5), ('handbuilt', 2), ('transformed', 2), ('stale', 2)])
+        kind = r.weighted([('decoded', 5), ('handbuilt', 2), ('transformed', 2), ('stale', 2), ('dup', 1)])
         item = {'kind': kind, 'model': mi, 'meta': gtext.gen_metadata(r.sub('meta'), p_any=0.5)}
         if kind == 'handbuilt':
             triples = [list(t) for t in c['triples']]
@@ -121,6 +122,10 @@ def plan_world(rng, idx):
             item['content'] = {'top': c['top'], 'triples': triples}
         else:
             item['tree'] = gcontent.layout_tree(r.sub('layout'), c, spec, gcontent.LayoutCfg(p_align=r.pick([0, 0.3, 0.6])))
+            if kind == 'dup':
+                # the same triple stated twice with different epigraph data (not well-formed, but purity and
+                # determinism are demanded of every call whatever it is given)
+                _dup_branch(item['tree'], r.sub('dup'))
             if kind == 'transformed':
                 item['transform'] = r.pick(['reify_edges', 'reify_attributes', 'indicate_branches', 'dereify_edges'])
             if kind == 'stale':
@@ -130,6 +135,30 @@ def plan_world(rng, idx):
                                              [(lc.MARKER_FAULTS, 3), (lc.REORDERINGS, 2)])
         items.append(item)
     return {'models': specs, 'items': items}
+
+
+def _dup_branch(tree, rng):
+    nodes = []
+
+    def walk(n):
+        nodes.append(n)
+        for b in n[1]:
+            if isinstance(b[1], list):
+                walk(b[1])
+    walk(tree)
+    cands = [(n, i) for n in nodes for i, b in enumerate(n[1]) if b[0] != '/']
+    if not cands:
+        return
+    n, i = cands[rng.randrange(len(cands))]
+    role, tgt = n[1][i]
+    base_role = role.partition('~')[0]
+    if isinstance(tgt, list):
+        # :R v ... :R (v / concept): the bare reference carries no Push, the nested node does
+        n[1].insert(i if rng.chance(0.5) else i + 1, [base_role, tgt[0]])
+    elif isinstance(tgt, str) and not tgt.startswith('"'):
+        n[1].insert(i + 1, [base_role, tgt.partition('~')[0] + '~e.%d' % (1 + rng.randrange(9))])
+    else:
+        n[1].insert(i + 1, [base_role + '~e.%d' % (1 + rng.randrange(9)), tgt])
 
 
 def plan(rng, idx, tier):
@@ -157,7 +186,11 @@ def plan(rng, idx, tier):
         'property': ID, 'world': world, 'clients': clients,
         'config': {'p_switch': srng.pick([0.001, 0.01, 0.05, 0.3]), 'files': srng.pick(FILE_SUBSETS),
                    'first': srng.randrange(nclients), 'sched_seed': srng.randrange(1 << 30),
-                   'debug_logging': srng.chance(0.25), 'step_cap': 2_000_000},
+                   'debug_logging': srng.chance(0.25), 'step_cap': 2_000_000,
+                   # logging configuration is process state, not an argument: the sequential reference and the
+                   # simulated phase run under independently chosen levels of the 'penman' logger
+                   'log_levels': [rng.sub('loglevel', 0).pick(['WARNING', 'WARNING', 'ERROR', 'DEBUG']),
+                                  rng.sub('loglevel', 1).pick(['WARNING', 'ERROR', 'ERROR', 'DEBUG'])]},
         'faults': [],
     }
     frng = rng.sub('fault')
@@ -171,7 +204,7 @@ def plan(rng, idx, tier):
         ci, op = frng.pick(allops)
         t['faults'].append({'kind': 'recursion', 'client': 0, 'op_id': op['id'], 'headroom': 2 + frng.randrange(18)})
     t['transport'] = {'fork': idx % 16 == 5, 'spawn': (idx % 400 == 9) or (tier == 'thorough' and idx % 60 == 9)}
-    t['subprocess'] = (idx % 120 == 3)
+    t['subprocess'] = (idx % 60 == 3)
     if allops and ((tier == 'thorough' and idx % 10 == 0) or idx % 40 == 0):
         # every line of one call as a crash point; prefer a call that is the first to use the per-world
         # custom model (lazily initialised state is built then), else the first call of client 0
@@ -518,25 +551,27 @@ def execute(trace):
     cfg = trace.get('config', {})
     clients = trace['clients']
     lg = logging.getLogger('penman')
-    handler = None
-    if cfg.get('debug_logging'):
-        handler = _ListHandler()
-        lg.addHandler(handler)
-        lg.setLevel(logging.DEBUG)
+    levels = cfg.get('log_levels') or (['DEBUG', 'DEBUG'] if cfg.get('debug_logging') else ['WARNING', 'WARNING'])
+    handler = _ListHandler()
+    lg.addHandler(handler)
+    if 'DEBUG' in levels:
         res.hit('probe.debug_logging')
+    if levels[0] != levels[1]:
+        res.hit('probe.reference_and_run_under_different_log_levels')
     try:
         with simrandom.installed({'mode': 'constant'}):
-            _execute(trace, cfg, clients, res)
+            _execute(trace, cfg, clients, res, levels)
     finally:
-        if handler is not None:
-            lg.removeHandler(handler)
-            lg.setLevel(logging.ERROR)
-            res.hit('step.log_records', handler.n)
+        lg.removeHandler(handler)
+        lg.setLevel(logging.NOTSET)
+        res.hit('step.log_records', handler.n)
     return res
 
 
-def _execute(trace, cfg, clients, res):
+def _execute(trace, cfg, clients, res, levels=('WARNING', 'WARNING')):
+    lg = logging.getLogger('penman')
     # ---- sequential reference on its own world -------------------------------------------------------
+    lg.setLevel(getattr(logging, levels[0]))
     ref_world = World(trace['world'])
     reference = {}
     for ci, ops in enumerate(clients):
@@ -547,6 +582,7 @@ def _execute(trace, cfg, clients, res):
             reference[op['id']] = result_canon(lambda: run_op(ref_world, dict(op, pickle=False), local))
     ref_after = ref_world.digests()
 
+    lg.setLevel(getattr(logging, levels[1]))
     world = World(trace['world'])
     pristine = world.digests()
     names = [n for n, _ in world.shared(models=False)]
@@ -554,6 +590,8 @@ def _execute(trace, cfg, clients, res):
         res.hit('probe.transform_output_in_world')
     if any(it['kind'] == 'handbuilt' for it in trace['world']['items']):
         res.hit('probe.handbuilt_in_world')
+    if any(it['kind'] == 'dup' for it in trace['world']['items']):
+        res.hit('probe.duplicate_triples_in_world')
     # the sequential execution itself must leave its arguments unchanged
     seq_pristine = World(trace['world']).digests()
     if ref_after != seq_pristine:
@@ -865,6 +903,8 @@ def shrink(trace):
             yield t
     if trace['config'].get('debug_logging'):
         yield with_path(trace, ['config', 'debug_logging'], False)
+    if trace['config'].get('log_levels') not in (None, ['WARNING', 'WARNING']):
+        yield with_path(trace, ['config', 'log_levels'], ['WARNING', 'WARNING'])
     # simplify world items that no remaining operation refers to: replace by a trivial graph
     trivial = {'kind': 'decoded', 'model': 0, 'meta': [], 'tree': ['a', [['/', 'b']]]}
     for i, it in enumerate(trace['world']['items']):
